@@ -456,3 +456,5 @@ func vfShort(b []byte, n int) string {
 }
 
 func vfJoin(ss []string) string { return strings.Join(ss, ",") }
+
+func runtimeStack(buf []byte) int { return runtime.Stack(buf, true) }
